@@ -14,7 +14,9 @@ REQUIRED = ['lhm_linear', 'closed_form_root', 'root_solves', 'cramer_solves', 'c
             # Props/C15_Gen.lean: the code regenerated from g_estimation.py is the model, and the property for it
             'snm_closed_lhm_generated', 'snm_closed_rha_generated', 'snm_fit_weight_col_generated',
             'snm_fit_closed_generated', 'snm_fit_closed_cramer', 'snm_fit_closed_root', 'snm_fit_closed_unique',
-            'snm_search_hpsi_generated', 'snm_search_objective_zero_iff', 'snm_search_zero_is_closed_form']
+            'snm_search_hpsi_generated', 'snm_search_objective_zero_iff', 'snm_search_zero_is_closed_form',
+            # round 4: the H(psi) terms of the search solver (term rewriting), reporting methods are observers
+            'hterm_column', 'hterm_keeps_other_names', 'hterm_position_free', 'snm_reporting_methods_observe']
 RULE = ('every cell of outcome type {continuous, binary} x SNM {A, A + A:V, A + A:V + A:W} x weights {none, column} x '
         'missing outcome {none, dropped (no model), missing_model stabilized, missing_model unstabilized} gets fresh '
         'random data sets (n 80-260, binary/3-level/continuous covariates, random exposure model, shuffled or '
@@ -516,7 +518,69 @@ def check_closed(chk, drv, df, ytype, p, weights, missing, expo, miss_den, seedi
             'names': case['names']}
 
 
-def check_root_criterion(chk, df, ytype, p, weights, missing, expo, miss_den, closed, names='auto'):
+class FormulaSpy:
+    """records the model strings `_grid_search_` hands to propensity_score (the exposure model + the H(psi) terms)"""
+
+    def __enter__(self):
+        import zepid.causal.snm.g_estimation as ge
+        self.ge, self.orig, self.models = ge, ge.propensity_score, []
+
+        def spy(*a, **k):
+            self.models.append(k.get('model', a[1] if len(a) > 1 else None))
+            return self.orig(*a, **k)
+        ge.propensity_score = spy
+        return self
+
+    def __exit__(self, *exc):
+        self.ge.propensity_score = self.orig
+
+
+def hterms_k(chk, drv, g, models, case):
+    """K: the H(psi) terms zEpid added to the exposure model vs the model's factor-by-factor rewriting (`Snm.hTerm`,
+    theorem hterm_column) of the terms named by psi_labels -- compared as sets of factors per term (a product does not
+    depend on the order of its factors) and through the value of each term's column in one row (exact)"""
+    # the calls of the search come last (a missing-outcome model, if any, was fitted before): the models of the exposure
+    models = [m for m in models if isinstance(m, str) and m.split('~')[0].strip() == str(g.exposure)]
+    if drv is None or not models:
+        return
+    labels = [str(x) for x in g.psi_labels]
+    rhs = models[-1].split('~', 1)[1]
+    impl_terms = [[f.strip() for f in t.split(':')] for t in rhs.split(' + ')[-len(labels):]]
+    ids = {}
+
+    def fid(name):
+        return ids.setdefault(name, len(ids) + 1)
+    treat, h = fid(str(g.exposure)), fid('H_psi')
+    terms = [[fid(f.strip()) for f in lab.split(':')] for lab in labels]
+    impl_ids = [[fid(f) for f in t] for t in impl_terms]
+    vals = [Fraction(0)] + [Fraction(2 * i + 3, i + 2) for i in range(len(ids))]      # value of name id i in the row
+    hval = Fraction(-5, 7)
+    rep, _ = drv.ask('snm_hterms', treat=treat, h=h, terms=','.join(str(x) for t in terms for x in t + [0]),
+                     vals=','.join(str(v) for v in vals), hval=str(hval))
+    ok = rep['status'] == 'ok'
+    if ok:
+        flat = [int(x) for x in rep['hterms'].split(',')]
+        mterms, cur = [], []
+        for x in flat:
+            if x == 0:
+                mterms.append(cur)
+                cur = []
+            else:
+                cur.append(x)
+        mcol = [Fraction(x) for x in rep['col'].split(',')]
+        icol = []
+        for t in impl_ids:
+            v = Fraction(1)
+            for f in t:
+                v *= hval if f == h else vals[f]
+            icol.append(v)
+        ok = [sorted(t) for t in mterms] == [sorted(t) for t in impl_ids] and mcol == icol
+    chk.k(ok, 'search solver: the H(psi) terms added to the exposure model = treatment replaced factor by factor in the '
+          'terms named by psi_labels (model hTerm; columns H x modifiers)',
+          {'case': case, 'psi_labels': labels, 'impl_terms': impl_terms, 'model': rep})
+
+
+def check_root_criterion(chk, df, ytype, p, weights, missing, expo, miss_den, closed, names='auto', drv=None):
     """D, deterministic (no reliance on where Nelder-Mead ends): the closed-form psi is a root of the estimating
     equations, and the search solver's criterion -- sum |alpha| of the H(psi) terms added to the exposure model --
     measures exactly that association, so it vanishes at the closed-form root.  A search started AT the closed form and
@@ -531,8 +595,9 @@ def check_root_criterion(chk, df, ytype, p, weights, missing, expo, miss_den, cl
     if names == 'auto':
         names = closed['names']
     try:
-        g = run_impl(df, expo, p, weights, missing, miss_den, solver='search', snm=closed['snm'], history=None,
-                     names=names, observe=None, starting_value=[float(x) for x in closed['psi']], maxiter=1)
+        with FormulaSpy() as spy:
+            g = run_impl(df, expo, p, weights, missing, miss_den, solver='search', snm=closed['snm'], history=None,
+                         names=names, observe=None, starting_value=[float(x) for x in closed['psi']], maxiter=1)
         fun = float(g._scipy_solver_obj.fun)
         labels_s = g._verif_labels
     except Exception as e:       # noqa: BLE001
@@ -544,10 +609,12 @@ def check_root_criterion(chk, df, ytype, p, weights, missing, expo, miss_den, cl
     chk.case(case, ('root_criterion', closed['snm'], names, bool(weights), missing, ytype, hash(df.to_csv())))
     chk.count('root_criterion:p%d/%s/%s' % (p, 'w' if weights else 'nw', missing))
     chk.count('root_criterion_snm:' + closed['snm'].replace(' ', ''))
+    chk.extra['root_criterion_max'] = max(chk.extra.get('root_criterion_max', 0.0), fun)
     chk.d(sorted(labels_s) == sorted(closed['labels']),
           'search solver: psi_labels name exactly the terms of the SNM, one psi each', dict(case, search_labels=labels_s))
     chk.d(fun <= 1e-6, 'the search solver\'s criterion sum|alpha| vanishes at the closed-form root (<= 1e-6) -- '
           'the two solvers solve the same equations', case)
+    hterms_k(chk, drv, g, spy.models, case)
 
 
 def check_search(chk, df, ytype, p, weights, missing, expo, miss_den, closed, start_mode, history='auto',
@@ -790,7 +857,7 @@ def run(chk, drv, rng, tier):
                 keep[(ytype, p, weights, missing)] = (df, expo, miss_den, res)
             if res is not None and rep % 3 != 2:
                 # the search solver's criterion at the closed-form root (cheap: one truncated search), every cell
-                check_root_criterion(chk, df, ytype, p, weights, missing, expo, miss_den, res)
+                check_root_criterion(chk, df, ytype, p, weights, missing, expo, miss_den, res, drv=drv)
     # ill-scaled effect modifiers (calendar year, age in days): cond(lhm) up to ~1e13; D judges the residual
     ill = ['A + A:yr', 'A:yr + A', 'A + A:yr + A:V', 'A + A:days', 'A + A:V + A:days', 'A + A:center(yr)']
     k = 0
